@@ -57,6 +57,9 @@ func (sc c15Scenario) expectedFault() string {
 	if sc.MetaType != "" {
 		return "invalid metadata type"
 	}
+	if sc.FileDump == "isdir" || sc.FileDump == "notdir" {
+		return "directory" // "is a directory" / "not a directory": the checkpoint file cannot be read
+	}
 	partial := sc.FileDump != ""
 	for _, o := range sc.LoadOmit {
 		if o%n >= 0 {
@@ -155,7 +158,16 @@ func c15Child(raw json.RawMessage) any {
 			// a valid file that covers only the first assigned vBucket (written under another membership)
 			content = fmt.Sprintf("{\"%d\": {\"checkpoint\": {\"vbuuid\": %d, \"seqno\": 0, \"snapshot\": {\"startSeqno\": 0, \"endSeqno\": 0}}, \"bucketUuid\": \"u\"}}", lo, uint64(cl.failoverOf(uint16(lo))[0].VbUUID))
 		}
-		_ = os.WriteFile(path, []byte(content), 0o644)
+		switch sc.FileDump {
+		case "isdir": // e.g. a volume mounted at the file's name
+			_ = os.Mkdir(path, 0o755)
+			defer os.RemoveAll(path)
+		case "notdir": // a component of the path is a regular file
+			_ = os.WriteFile(path, []byte("x"), 0o644)
+			path = filepath.Join(path, "checkpoint.json")
+		default:
+			_ = os.WriteFile(path, []byte(content), 0o644)
+		}
 		cfg.Metadata.Type = "file"
 		cfg.Metadata.Config = map[string]string{"fileName": path}
 	}
@@ -405,7 +417,7 @@ func c15Gen(rt *rapid.T) c15Scenario {
 	n := hi - lo + 1
 	sc.High = rapid.SliceOfN(rapid.IntRange(0, 40), 1, 6).Draw(rt, "high")
 	relGen := rapid.SampledFrom([]int{9, 9, -2, -1, 0, 0})
-	kind := rapid.SampledFrom([]string{"control", "control", "above", "above", "load", "seqno", "failover", "open", "open", "membership", "metadata", "leader", "reopen", "multi", "partial_load", "partial_load", "file_dump", "end_during_open", "end_during_open", "end_during_open", "end_during_open", "seq_omit", "seq_omit"}).Draw(rt, "kind")
+	kind := rapid.SampledFrom([]string{"control", "control", "above", "above", "load", "seqno", "failover", "open", "open", "membership", "metadata", "leader", "reopen", "multi", "partial_load", "partial_load", "file_dump", "end_during_open", "end_during_open", "end_during_open", "end_during_open", "seq_omit", "seq_omit", "file_dump", "file_dump"}).Draw(rt, "kind")
 	if kind == "failover" {
 		relGen = rapid.Just(9)
 		sc.Reset = "latest"
@@ -461,7 +473,7 @@ func c15Gen(rt *rapid.T) c15Scenario {
 		}
 	case "file_dump":
 		if n >= 2 {
-			sc.FileDump = rapid.SampledFrom([]string{"partial", "corrupt"}).Draw(rt, "dump")
+			sc.FileDump = rapid.SampledFrom([]string{"partial", "corrupt", "isdir", "notdir"}).Draw(rt, "dump")
 		}
 		sc.Rel = []int{9}
 	case "multi":
